@@ -1,4 +1,5 @@
 import Anysystem.Props.C08
+import Anysystem.Proofs.SimRunThms
 #print axioms Anysystem.Sim.crashNode_cancels
 #print axioms Anysystem.Sim.crashNode_frame
 #print axioms Anysystem.Sim.cancelled_never_returned
@@ -6,3 +7,7 @@ import Anysystem.Props.C08
 #print axioms Anysystem.Sim.recoverNode_fresh
 #print axioms Anysystem.Sim.addProcess_fresh
 #print axioms Anysystem.Sim.nextEvent_some
+#print axioms Anysystem.Sim.crashNode_no_handler
+#print axioms Anysystem.Sim.step_crashed_silent
+#print axioms Anysystem.Sim.steps_crashed_silent
+#print axioms Anysystem.Sim.sendLocal_crashed_refused
